@@ -31,3 +31,21 @@ Print Assumptions C13_aborted_refuted.
 Example C13_nonvacuous : c13_ok ((1%nat, [{| st_chan := 1%nat; st_op := (ARpc 3%nat); st_script := [[(1%nat, {| f_name := NSelectOk; f_num := (0)%Z; f_str := ([]%N) |})]] |}; {| st_chan := 1%nat; st_op := (APublish false); st_script := [[(1%nat, {| f_name := NAck; f_num := (-1)%Z; f_str := ([]%N) |})]] |}; {| st_chan := 1%nat; st_op := (APublish true); st_script := [[(1%nat, {| f_name := NNack; f_num := (-1)%Z; f_str := ([]%N) |})]] |}]))
   (chan_model ((1%nat, [{| st_chan := 1%nat; st_op := (ARpc 3%nat); st_script := [[(1%nat, {| f_name := NSelectOk; f_num := (0)%Z; f_str := ([]%N) |})]] |}; {| st_chan := 1%nat; st_op := (APublish false); st_script := [[(1%nat, {| f_name := NAck; f_num := (-1)%Z; f_str := ([]%N) |})]] |}; {| st_chan := 1%nat; st_op := (APublish true); st_script := [[(1%nat, {| f_name := NNack; f_num := (-1)%Z; f_str := ([]%N) |})]] |}]))) = true.
 Proof. vm_compute. reflexivity. Qed.
+
+(* ---------- several threads publishing on one confirming channel ---------- *)
+From AV Require Import Model.ConcSem Proofs.ConcSemP Model.Src Gen.GenSrc Model.SrcShape.
+
+(* the confirm wait is the same critical section (register Ack/Nack, write the
+   message, wait) - so under every schedule each publisher reads the verdict
+   on its own message *)
+Theorem C13_concurrent_own_verdict : forall progs sched,
+  Forall (Forall (fun c => section_ok (cl_prog c) = true)) progs ->
+  own_results (crun progs sched) = true.
+Proof. exact own_reply_all_schedules. Qed.
+Print Assumptions C13_concurrent_own_verdict.
+
+(* read off the source on every run: Basic.publish calls _publish_confirm inside
+   rpc.lock; _publish_confirm registers, writes, waits in that order and touches no lock *)
+Theorem C13_source_lock_discipline : confirm_shape_ok = true.
+Proof. vm_compute. reflexivity. Qed.
+Print Assumptions C13_source_lock_discipline.
